@@ -43,6 +43,7 @@ type concEv struct {
 }
 
 type concRun struct {
+	fileEvs []string // c05: data files removed / truncated by the running pass, with the tick
 	cancelAt, boundaries, cancelled int32 // c05: CancelGC at the cancelAt-th file boundary of the pass (1 = before the first file)
 	clock   int64
 	mu      sync.Mutex
@@ -100,6 +101,17 @@ func concHook(point string, args ...interface{}) {
 		}
 	case "gc.end":
 		atomic.AddInt32(&cr.passes, -1)
+	case "fs.remove", "fs.truncate":
+		// a data file removed (Clear) or cut (dropStaleTail, endGCWriting) while a pass runs: positions into it that a
+		// reader took before are reused by whatever the pass writes there next
+		if atomic.LoadInt32(&cr.passes) > 0 && len(args) > 0 {
+			if path, ok := args[0].(string); ok && strings.HasSuffix(path, ".data") {
+				t := cr.tick()
+				cr.mu.Lock()
+				cr.fileEvs = append(cr.fileEvs, fmt.Sprintf("gcfile tick=%d kind=%s file=%s", t, point[3:], filepath.Base(path)))
+				cr.mu.Unlock()
+			}
+		}
 	case "gc.prepared", "gc.file.done":
 		// c05: the pass is cancelled at a chosen file boundary (CancelGC, as the admin command does)
 		if ca := atomic.LoadInt32(&cr.cancelAt); ca > 0 {
@@ -655,6 +667,12 @@ func concEmit(c *Ctx, cr *concRun) {
 	evs := append([]concEv{}, cr.evs...)
 	cr.mu.Unlock()
 	sort.Slice(evs, func(i, j int) bool { return evs[i].inv < evs[j].inv })
+	cr.mu.Lock()
+	fevs := append([]string{}, cr.fileEvs...)
+	cr.mu.Unlock()
+	for _, l := range fevs {
+		c.line("%s", l)
+	}
 	for _, e := range evs {
 		st := e.state
 		if st == "" {
